@@ -1,4 +1,5 @@
 """C06 — thread pool: lock discipline and hand-off shape (DESIGN §4 C06, A.9)."""
+import re
 import lm
 import rules
 from lm import S, strip, cval, walk, Func
@@ -349,6 +350,24 @@ def run(ck, P):
         detb.append((e.fn.name, S(e.args[1])))
     ck.ob("C06.4-HANDOFF", "%s:add_threads:thread bound" % T, okb,
           "threads are created %s; lazy growth adds one thread only while the list is below max_threads: %s" % (detb, okb))
+    # a pool is its own world: everything a worker is created with, joined by or counted in lives in the pool object (or in the
+    # creating activation).  Mutable static storage in thpool.c — file level or function-static — is state shared by every pool of the
+    # process: the first pool's detach state, limits or counters then decide how a later pool is joined and freed.
+    shared = []
+    for g in P.globals:
+        if g.get("func") or not g.get("is_def") or not str(g.get("file", "")).endswith("thpool/thpool.c"):
+            continue
+        if not str(g.get("ct") or g.get("t") or "").lstrip().startswith("const "):
+            shared.append(("file-level", g["name"], g.get("line")))
+    for f in [f for f in P.funcs if f.unit == T]:
+        for e in f.events():
+            if e.kind == "decl" and e.e.get("static") and not str(e.e.get("ct") or e.e.get("t") or "").lstrip().startswith("const "):
+                shared.append((f.name, re.sub(r"__[A-Za-z_][A-Za-z0-9_]*?_\d+$", "", e.e.get("name", "?")), e.e.get("line")))
+    ck.ob("C06.4-HANDOFF", "%s:no state shared between pools" % T, not shared,
+          "thpool.c keeps no mutable static storage: every pool is created, joined and freed from its own fields" if not shared else
+          "mutable static storage %s in thpool.c is shared by all pools of the process: what the first pool stored there (thread attributes, "
+          "limits, counters) is applied to every later pool — e.g. workers of a joinable pool created detached, so that wait_pool's "
+          "pthread_join fails and m_thpool_free returns with workers still running" % (shared[:3],), nontrivial=False)
     okw = True
     det = []
     for fld, par in (("fn", 1), ("arg", 2)):
